@@ -186,7 +186,7 @@ def gen_scenario(rng, focus=None, entry=None):
             if rng.random() < 0.5:
                 for mask in range(2 ** nhosts):
                     pres = [(mask >> b) & 1 for b in range(nhosts)]
-                    sc.add("comprow", ",".join(map(str, pres)), "0" if mask == 0 else dy(rng, ["1/4", "1/2", "1", "3/4"]))
+                    sc.add("comprow", ",".join(map(str, pres)), "0" if mask == 0 else dy(rng, ["1/4", "1/2", "1", "3/4", "0", "1"]))   # a combination may score 0 (no transmission)
             else:
                 # partial table: several rows that overlap (one host in many rows), in any
                 # order of score - the lookup is "highest score among the satisfied rows that
